@@ -1481,3 +1481,25 @@ Proof.
 Qed.
 
 End SingleEcdhKw.
+
+
+(* ================= the contracts are satisfiable: a toy instance (identity ciphers) ================= *)
+Definition toy_oracles : oracles := {|
+  o_mac := fun _ _ m => Ok (firstn 64 (m ++ repeat 0 64));
+  o_cbc_enc := fun _ _ p => Ok p; o_cbc_dec := fun _ _ c => Ok c;
+  o_gcm_enc := fun _ _ _ m => Ok (m, [1]); o_gcm_dec := fun _ _ _ c _ => Ok (Some c);
+  o_cc_enc := fun _ _ _ m => Ok (m, [2]); o_cc_dec := fun _ _ _ c _ => Ok c;
+  o_kw_wrap := fun _ c => Ok c; o_kw_unwrap := fun _ e => Ok (Some e);
+  o_rsa_enc := fun _ _ c => Ok c; o_rsa_dec := fun _ _ e => Ok e;
+  o_pbkdf2 := fun _ _ _ _ l => Ok (repeat 7 (N.to_nat l));
+  o_ckdf := fun _ _ _ l => Ok (repeat 9 (N.to_nat l));
+  o_ecdh := fun _ _ => Ok [3];
+  o_import := fun _ _ => Err EValue;
+  o_loads := fun _ => Err EValue; o_dumps := fun _ => Ok [];
+  o_deflate := fun m => Ok m; o_inflate := fun z => Ok z;
+  o_check_header := fun _ _ => Ok tt |}.
+
+Lemma toy_contracts : contracts toy_oracles.
+Proof.
+  constructor; simpl; intros; try (inversion H; subst; reflexivity).
+Qed.
